@@ -82,4 +82,37 @@ def frechetGen (s : Spec) (op : Rat → Rat → Rat) (x y : PB) : List Rat × Li
   let r := if s.sortRight then sortR r else r
   if s.leftFirst then (l, r) else (r, l)
 
+/-! ## the corner rules `perfect_op`, `opposite_op`, `independent_op`
+
+Each builds four arrays of corner combinations `op(x.<bound>, y.<bound>)` (elementwise, or over the `n × n`
+grid through `vectorized_cartesian_op`), optionally with `y`'s bounds flipped first, reduces them elementwise
+with `np.minimum.reduce` / `np.maximum.reduce`, sorts and returns the pair. -/
+
+structure CornerSpec where
+  c1 : Side × Side
+  c2 : Side × Side
+  c3 : Side × Side
+  c4 : Side × Side
+  /-- `np.flip(y.left)`, `np.flip(y.right)` are used instead of `y.left`, `y.right` -/
+  flipY : Bool
+  /-- corners over the grid (`vectorized_cartesian_op`) instead of elementwise -/
+  grid : Bool
+  redLeft : Red
+  redRight : Red
+  sortLeft : Bool
+  sortRight : Bool
+  deriving Repr, DecidableEq
+
+def red4 : Red → List Rat → List Rat → List Rat → List Rat → List Rat
+  | .min, a, b, c, d => zip4 min4 a b c d
+  | .max, a, b, c, d => zip4 max4 a b c d
+
+def cornerGen (s : CornerSpec) (op : Rat → Rat → Rat) (x y : PB) : List Rat × List Rat :=
+  let y' : PB := if s.flipY then ⟨y.left.reverse, y.right.reverse⟩ else y
+  let col := fun (c : Side × Side) =>
+    if s.grid then cartesian op (c.1.of x) (c.2.of y') else List.zipWith op (c.1.of x) (c.2.of y')
+  let l := red4 s.redLeft (col s.c1) (col s.c2) (col s.c3) (col s.c4)
+  let r := red4 s.redRight (col s.c1) (col s.c2) (col s.c3) (col s.c4)
+  (if s.sortLeft then sortR l else l, if s.sortRight then sortR r else r)
+
 end Pun.FrechetInterp
